@@ -4,6 +4,7 @@
 //!   harness <engine> gen --seed S --count N [--len L] [--profile P] --out DIR
 //!   harness <engine> replay FILE        (ops file -> trace on stdout)
 
+mod bits_engine;
 mod comps;
 mod util;
 mod world_engine;
@@ -101,6 +102,43 @@ fn main() {
                 stats.max_archetypes
             )
             .unwrap();
+        }
+        ("bits", "gen") => {
+            let seed: u64 = arg(&args, "--seed").and_then(|s| s.parse().ok()).unwrap_or(1);
+            let count: usize = arg(&args, "--count").and_then(|s| s.parse().ok()).unwrap_or(1000);
+            let out = arg(&args, "--out").expect("--out DIR");
+            std::fs::create_dir_all(&out).unwrap();
+            let mut trace = std::io::BufWriter::new(std::fs::File::create(format!("{}/trace.txt", out)).unwrap());
+            let mut ops = std::io::BufWriter::new(std::fs::File::create(format!("{}/ops.txt", out)).unwrap());
+            let lines = bits_engine::gen_lines(seed, count);
+            // one history per 64 requests so that a failure is isolated
+            for (k, chunk) in lines.chunks(64).enumerate() {
+                writeln!(trace, "history bits {}", k).unwrap();
+                writeln!(ops, "history bits {}", k).unwrap();
+                for l in chunk {
+                    writeln!(ops, "{}", l).unwrap();
+                    let r = util::guarded(|| bits_engine::exec(l)).unwrap_or_else(|e| format!("panic {}", e));
+                    writeln!(trace, "{} => {}", l, r).unwrap();
+                }
+            }
+            let mut f = std::fs::File::create(format!("{}/stats.json", out)).unwrap();
+            writeln!(f, "{{\"requests\": {}}}", lines.len()).unwrap();
+        }
+        ("bits", "replay") => {
+            let file = args.get(3).expect("ops file");
+            for line in std::fs::read_to_string(file).unwrap().lines() {
+                let line = line.trim();
+                if line.is_empty() || line.starts_with('#') {
+                    continue;
+                }
+                if line.starts_with("history ") {
+                    println!("{}", line);
+                    continue;
+                }
+                let lhs = line.split(" => ").next().unwrap();
+                let r = util::guarded(|| bits_engine::exec(lhs)).unwrap_or_else(|e| format!("panic {}", e));
+                println!("{} => {}", lhs, r);
+            }
         }
         ("world", "replay") => {
             let file = args.get(3).expect("ops file");
